@@ -24,7 +24,7 @@ RULE = ("seeded swarm biased to curve-number / germination / top-soil depths off
         "read-only array is classified as a violation too. Non-trivial run: at least one rainy day with antecedent-moisture "
         "adjustment active, or a season start (the only allowed change) was crossed; distinct = distinct configuration signatures")
 PROFILE = {"soil_switch_p": 0.8, "dz_p": 0.5, "calendar_crop_p": 0.4, "n_seasons": [1, 2, 2, 3], "gw": 0.3, "field_p": 0.5,
-           "irr_methods": [0, 1, 2, 3, 4, 5, 5], "events_per_year": 2.0, "co2_p": 0.4, "off_season_p": 0.5,
+           "irr_methods": [0, 1, 2, 3, 4, 5, 5], "events_per_year": 3.0, "event_kinds": ["storm", "wet_spell", "drought", "dry_then_wet", "dry_then_wet", "heat_wave", "cold_snap", "et0_spike"], "co2_p": 0.4, "off_season_p": 0.5,
            "crops": None}
 
 PROFILE_ARRAYS = ["Comp", "dz", "Layer", "dzsum", "th_fc", "th_s", "th_wp", "Ksat", "Penetrability", "th_dry", "tau", "zBot",
@@ -110,6 +110,32 @@ def changed(a, b):
 
 
 def gen_case(rng, tier, idx):
+    if idx % 4 == 1:
+        # stress-and-recovery regime: dry start, no rain for the first weeks after sowing, then generous water (a dated
+        # schedule or a wet spell) - canopy shrinkage, early senescence, recovery and the parameter adjustments they trigger
+        import datetime as dt
+        from ..gen import planting_dates
+        from ..spec import fmt_date, parse_date
+        from ..weather import make_event
+        prof = dict(PROFILE, gw=0.0, sat_start_p=0.0, irr_methods=[0], custom_soil_p=0.0, events_per_year=0.5, n_seasons=[1, 2], sensible_planting_p=0.95,
+                    iwc_kinds=["Pct"])
+        case = std_case(rng, prof)
+        spec = case["spec"]
+        spec["iwc"]["value"] = [rng.choice([20, 30, 40, 50]) for _ in spec["iwc"]["value"]]
+        w = spec["weather"]
+        off = (parse_date(spec["start"]) - parse_date(w["start"])).days
+        sched = []
+        for p in planting_dates(spec):
+            d0 = (p - parse_date(spec["start"])).days
+            dry = rng.choice([25, 35, 45, 60])
+            w["events"].append({"kind": "drought", "day": off + d0 - 3, "len": dry + 3 + 120, "mag": 0.0})
+            t = dry
+            while t < dry + 120:
+                sched.append([fmt_date(p + dt.timedelta(days=t)), rng.choice([20, 30, 40])])
+                t += rng.choice([2, 3, 4, 7])
+        spec["irr"] = {"method": 3, "kwargs": {"MaxIrr": 60}, "schedule": sched}
+        case["controller"] = None
+        return case
     return std_case(rng, PROFILE)
 
 
